@@ -657,6 +657,18 @@ def _compatible(rval, known):
             o = ("isnone", a[1])
             if o in merged and merged[o] == v:
                 return False
+    # None is falsy, not callable and an instance of no repository class
+    for a, v in merged.items():
+        if a[0] == "isnone" and v:
+            t = a[1]
+            if merged.get(("truthy", t)) is True:
+                return False
+            if merged.get(("truthy", ("call", ("global", "builtins.callable"),
+                                      (t,), ()))) is True:
+                return False
+            if any(b[0] == "isinstance" and b[1] == t and w
+                   for b, w in merged.items()):
+                return False
     # ordering against constants
     ords = {}
     for src_ in (rval, known):
